@@ -112,6 +112,8 @@ def template_family(tier):
     add([[lit('s1')], [lit('s'), num(0)]], [], [[lit('s'), num(0)]], [])
     add([], [], [[var('title', 2), lit('.x')], [var('id')]], [])
     add([[lit('a')], [var('id')], [lit('c')]], [], [], [], bracket=False)
+    # $num sharing an alternative / a static name with a variable that may be unbound
+    add([[var('id'), lit('-'), num(0)]], [], [[var('id'), lit('-'), num(2)], [var('title')], [lit('s'), num(3)]], [])
     if tier == 'thorough':
         add([], [], [[var('id')], [var('title', 3)], [var('title', 1), num(2)], [lit('z'), num(0)]], [H])
         add([[num(2)], [num(0)]], [lit('k')], [[num(1), var('id')], [num(0)]], [])
